@@ -28,7 +28,7 @@ void CDNS::Timestamp::add_time_offset(int64_t offset, uint64_t ticks_per_second)
 
     int64_t ticks = (m_secs * ticks_per_second) + m_ticks;
 
-    if (offset < 0 && offset < -ticks)
+    if (ticks < 0 || (offset < 0 && offset < -ticks) || (offset > 0 && ticks > INT64_MAX - offset))
         throw std::runtime_error("Adding offset to Timestamp would create invalid Timestamp!");
 
     ticks += offset;
